@@ -90,7 +90,7 @@ def run(P, R, tier):
     n = guard.check_divisions(P, R, ROOTS, MODULES)
     R.floor("GUARD.div sites", n, 20)
     # weights on the simplex: count/total (pure, intensive) in the ML step, renormalised blend in the MAP step
-    dimrun.route(P, R, ["gmm.ml", "gmm.map.reynolds", "gmm.map.alpha"], rules=["EXT.D2", "DIM.D2", "EXT.D1"], where_prefix=["gmm:ml_gmm_m_step", "gmm:map_gmm_m_step"])
+    dimrun.route(P, R, ["gmm.ml", "gmm.map.reynolds", "gmm.map.alpha", "gmm.init", "km.varw"], rules=["EXT.D2", "DIM.D2", "EXT.D1"], where_prefix=["gmm:ml_gmm_m_step", "gmm:map_gmm_m_step", "gmm:GMMMachine.initialize_gaussians", "kmeans:reduce_indices_means_vars"])
     cache.k1_who_may_write(P, R)
     cache.k2_variances_setter(P, R)
     cache.k4_thresholds_setter(P, R)
